@@ -865,6 +865,49 @@ class NoProvMidProgram:
         return self.tasks[i].hash
 
 
+class TagProgram:
+    """jobs that carry tags: `leaf` has the task option tags=[("kind","leaf")]; `mid` (shallow) wraps its result in
+    apply_tags(value tags, job_tags, execution_tags); the execution itself is started with run(tags=...).
+    Task indices for `edit`: 0 = leaf, 1 = mid."""
+
+    def __init__(self, ns="gctag", run_tags=(("run", "r1"),)):
+        self.ns = ns
+        self.versions = [1, 1]
+        self.n = 2
+        self.run_tags = list(run_tags)
+
+    def describe(self):
+        return dict(program="main -> mid(shallow, task tags; apply_tags value/job/execution tags) -> leaf(task tags)",
+                    versions=list(self.versions), run_tags=self.run_tags)
+
+    def edit(self, i):
+        self.versions[i] += 1
+
+    def expected_main(self):
+        return 1 + 10 * self.versions[0]
+
+    def define(self):
+        from redun import apply_tags, task
+        ns, vl, vm = self.ns, self.versions[0], self.versions[1]
+
+        @task(name="leaf", namespace=ns, version=str(vl), tags=[("kind", "leaf")])
+        def leaf(x):
+            return x + 10 * vl
+
+        @task(name="mid", namespace=ns, version=str(vm), check_valid="shallow", tags=[("kind", "mid")])
+        def mid(x):
+            return apply_tags(leaf(x), tags=[("val", "tagged")], job_tags=[("jt", 1)], execution_tags=[("et", "e")])
+
+        @task(name="main_tag", namespace=ns, version="1")
+        def main_tag():
+            return mid(1)
+        self.tasks = {0: leaf, 1: mid}
+        return main_tag
+
+    def task_hash(self, i):
+        return self.tasks[i].hash
+
+
 class BigProgram:
     """t0(x) -> t1(x); both return strings of a few hundred bytes (>= value_store_min_size of the test backend), so
     that their Value rows are placeholders and the data lives in the value store.  `runs` counts task executions."""
@@ -1056,8 +1099,11 @@ def gen_program(rng, n=None, ns="gc"):
 def run_program(sched, prog: Program):
     """Run `main()`; returns the result or '!ErrName'."""
     main = prog.define()
+    kw = {}
+    if getattr(prog, "run_tags", None):
+        kw["tags"] = list(prog.run_tags)
     try:
-        return sched.run(main())
+        return sched.run(main(), **kw)
     except Crash:
         raise
     except Exception as e:  # noqa: BLE001
